@@ -166,6 +166,14 @@ ServeGeneral ==
                 <<"allow", R.pat, R.kind, "header", R.allowH, "node", R.allowN, "want", SetSeq(AllowSet(rt, R.pat))>>)
        /\ Check("C09", want.kind = R.kind => R.order = want.order, <<"order", Ev.method, R.pat, R.kind, R.order, want.order>>)
   /\ Check("C09", R.kind = "404" => R.order = Reverse(rt.use), <<"order 404", R.order>>)
+  \* C08, independent of the specification's table: whatever pattern SERVES a method also answers OPTIONS automatically,
+  \* HEAD is served by the GET handler exactly when GET is served, and HEAD is never served on its own
+  /\ IF ~(Ev.hasLink /\ R.kind = "route") THEN TRUE ELSE
+       LET k == Ev.link IN
+       /\ Check("C08", k.optk = "opt" /\ k.optpat = R.pat, <<"a served pattern does not answer OPTIONS", Ev.method, Ev.path, R.pat, k.optk, k.optpat>>)
+       /\ Check("C08", Ev.method = "GET" => (k.ok = "route" /\ k.oh = R.h /\ k.opat = R.pat), <<"HEAD is not served by the GET handler", Ev.path, R.pat, k.ok, k.oh>>)
+       /\ Check("C08", Ev.method = "HEAD" => (k.ok = "route" /\ k.oh = R.h /\ k.opat = R.pat), <<"HEAD served without GET", Ev.path, R.pat, k.ok, k.oh>>)
+       /\ Check("C08", (Ev.method \notin {"GET", "HEAD"} /\ k.ok = "route") => (k.opat = R.pat), <<"HEAD of another pattern", Ev.path, R.pat, k.opat>>)
   \* C02 (add-only) / C03 (witness paths in any history): the outcome is an admissible one
   /\ IF HasLong(rt) \/ ~(rt.addOnly \/ WitOK) THEN TRUE ELSE
        LET O == ServeOutcomes(rt, Ev.method, Ev.path)
